@@ -37,9 +37,19 @@ fn sp_op(rng: &mut Rng, sp: &il::Scalar, fp: &il::Scalar, data: &[il::Scalar]) -
         let from = e.bits();
         if from == to { e } else if from < to { E::zext(to, e).unwrap() } else { E::trun(to, e).unwrap() }
     };
+    // displacements: mostly a few slots; now and then a frame whose size does not fit 31 bits / reaches the sign bit
+    // of the stack pointer's width (the reported offset is a signed quantity of that width)
+    let disp = |rng: &mut Rng| -> u64 {
+        if rng.chance(1, 6) {
+            let half = 1u64 << (w - 1);
+            *rng.pick(&[0x7fff_fff0u64, 0x8000_0000, 0x8000_0010, 0xffff_fff0, half - slot, half, half.wrapping_add(slot)]) & (if w >= 64 { u64::MAX } else { (1u64 << w) - 1 })
+        } else {
+            slot * rng.range(1, 4)
+        }
+    };
     match rng.below(21) {
-        0 | 1 => il::Operation::assign(sp.clone(), E::sub(spx(), k(slot * rng.range(1, 4))).unwrap()),
-        2 | 3 => il::Operation::assign(sp.clone(), E::add(spx(), k(slot * rng.range(1, 4))).unwrap()),
+        0 | 1 => il::Operation::assign(sp.clone(), E::sub(spx(), k(disp(rng))).unwrap()),
+        2 | 3 => il::Operation::assign(sp.clone(), E::add(spx(), k(disp(rng))).unwrap()),
         4 => il::Operation::store(spx(), dw(E::Scalar(d), w)),
         5 => il::Operation::load(fp.clone(), spx()),
         6 => il::Operation::assign(fp.clone(), spx()),
